@@ -8,6 +8,7 @@ package jsonrpc
 //@ property C10 units: normalizeID, (*wsConn).cancelCtx, (*wsConn).handleChanMessage, (*wsConn).handleChanClose, (*wsConn).handleResponse, (*wsConn).handleFrame, (*wsConn).frameExecutor, (*wsConn).handleCall, (*wsConn).readFrame, (*wsConn).nextMessage, (*handler).handleReader, (*handler).handle, rpcError, (*handler).createError, (response).MarshalJSON, (*handler).getSpan, (*JSONRPCError).val, (*rpcFunc).processResponse, (*client).makeOutChan$1$2
 //@ property C09 units: (*handler).handleReader, (*handler).handle, (*handler).handle$1, rpcError, rpcError$1, (response).MarshalJSON, normalizeID, withLazyWriter, (*wsConn).handleCall, (*wsConn).handleOutChans$1
 //@ property C12 units: (*handler).register, (*handler).handle, processFuncOut, (*client).makeRpcFunc, NewMethodNameFormatter$1, (*RPCServer).AliasMethod, WithClientHandlerAlias$1
+//@ property C14 units: (*wsConn).nextWriter, (*wsConn).sendRequest, (*wsConn).setupPings, (*wsConn).setupPings$4, (*wsConn).handleWsConn, (*wsConn).tryReconnect, (*wsConn).tryReconnect$1, (*wsConn).handleOutChans, (*wsConn).handleCtxAsync, (*wsConn).nextMessage, (*wsConn).handleResponse, (*wsConn).handleCall, (*wsConn).handleCall$3, (*wsConn).cancelCtx, (*wsConn).handleChanMessage, (*wsConn).handleChanClose, (*wsConn).closeInFlight, (*wsConn).closeChans, (*wsConn).readFrame, (*wsConn).resetReadDeadline, withLazyWriter, (*lazyWriter).Write, (*lazyWriter).Write$1$1
 //@ property C13 units: doCall, (*handler).handle, rpcError$1
 //@ property C05 units: (*backoff).next
 
@@ -31,8 +32,20 @@ package jsonrpc
 //@ lockorder wsConn.chanHandlersLk < chanHandler.lk
 //@ guards wsConn.inflightLk: wsConn.inflight inv tables-nonnil: self.inflight != nil [C10,C14]
 //@ guards wsConn.handlingLk: wsConn.handling inv handling-ok: self.handling != nil && (forall k: U :: present(self.handling, k) ==> self.handling[k] != nil) [C10,C14]
-//@ guards wsConn.chanHandlersLk: wsConn.chanHandlers inv sinks-ok: self.chanHandlers != nil && (forall k :: present(self.chanHandlers, k) ==> self.chanHandlers[k] != nil && self.chanHandlers[k].cb != nil) [C10,C14]
+//@ pred sinksOK(c) := c.chanHandlers != nil && (forall k :: present(c.chanHandlers, k) ==> c.chanHandlers[k] != nil && c.chanHandlers[k].cb != nil)
+//@ guards wsConn.chanHandlersLk: wsConn.chanHandlers inv sinks-ok: sinksOK(self) [C10,C14,C08]
 //@ guards wsConn.errLk: wsConn.incomingErr [C14]
+//@ guards wsConn.writeLk: wsConn.conn(w), wsConn.stopPings(w) [C14]
+//@ sharedtype wsConn
+//@ immutable wsConn.connFactory, wsConn.reconnectBackoff, wsConn.pingInterval, wsConn.timeout, wsConn.handler, wsConn.requests, wsConn.pongs, wsConn.stop, wsConn.exiting, wsConn.readError, wsConn.frameExecQueue, wsConn.registerCh
+//@ unsync wsConn.conn: read without the lock by design; replaced only by the reconnect goroutine (under writeLk) before it starts the new reader
+//@ unsync wsConn.stopPings: called by the connection loop and the reconnect goroutine, which never run the call concurrently (reconnect goroutine is started by the loop and replaces it before the loop reads it again: not checked)
+//@ unsync wsConn.incoming: replaced by the connection loop only while no reader goroutine is running (not checked)
+//@ unsync wsConn.chanCtr: accessed with sync/atomic only
+//@ -- every write-side call on the websocket must happen with the connection's write lock held (gorilla allows one concurrent writer)
+//@ global at call (*github.com/gorilla/websocket.Conn).WriteJSON: assert write-under-writeLk: heldclass("wsConn.writeLk") [C14]
+//@ global at call (*github.com/gorilla/websocket.Conn).WriteMessage: assert write-under-writeLk: heldclass("wsConn.writeLk") [C14]
+//@ global at call (*github.com/gorilla/websocket.Conn).NextWriter: assert write-under-writeLk: heldclass("wsConn.writeLk") [C14]
 
 //@ alias (reqestHandler).handle = (*handler).handle
 //@ -- function types: what every value of the type guarantees (each concrete function of that type is verified against it)
@@ -44,6 +57,44 @@ package jsonrpc
 //@   ensures idok: result1 == nil ==> idok(result0) [C10,C02,C09]
 //@   ensures err-or-id: result1 != nil ==> result0 == nil [C09]
 //@   nopanic [C10]
+
+//@ func (*wsConn).nextWriter
+//@   requires cb != nil
+//@   at dyncall cb: assert writer-used-under-lock: heldclass("wsConn.writeLk") [C14]
+//@   at call (io.WriteCloser).Close: assert message-finished-under-lock: heldclass("wsConn.writeLk") [C14]
+//@   ensures callback-exactly-once: calls(cb) == 1 [C15,C14,C09]
+//@   ensures one-message-per-writer: calls(NextWriter) == 1 && calls(Close) <= 1 [C14]
+
+//@ func (*wsConn).sendRequest
+//@   ensures one-frame: calls(WriteJSON) == 1 [C14,C04]
+
+//@ func (*wsConn).setupPings$4
+
+//@ func (*wsConn).setupPings
+
+//@ func (*wsConn).resetReadDeadline
+
+//@ func (*wsConn).handleWsConn
+//@   initphase
+
+//@ func (*wsConn).tryReconnect
+
+//@ func (*wsConn).tryReconnect$1
+
+//@ func (*wsConn).handleOutChans
+
+//@ func (*wsConn).closeInFlight
+
+//@ func (*wsConn).closeChans
+//@   loop 1 invariant sinks-ok-while-held: sinksOK(c) [C10,C14,C08]
+
+//@ func (*wsConn).handleCtxAsync
+
+//@ func (*wsConn).handleCall$3
+
+//@ func (*lazyWriter).Write
+
+//@ func (*lazyWriter).Write$1$1
 
 //@ func (*wsConn).cancelCtx
 //@   nopanic [C10]
@@ -78,11 +129,11 @@ package jsonrpc
 //@   nopanic [C10]
 
 //@ func (*wsConn).readFrame
-//@   requires c.incoming != nil && !closed(c.incoming)
+//@   requires reader-owns-open-channel: c.incoming != nil && !closed(c.incoming) [C10,C03,C08]
 //@   nopanic [C10]
 
 //@ func (*wsConn).nextMessage
-//@   requires c.incoming != nil && !closed(c.incoming)
+//@   requires reader-owns-open-channel: c.incoming != nil && !closed(c.incoming) [C10,C03,C08]
 //@   nopanic [C10]
 
 //@ func (*client).makeOutChan$1$2
@@ -157,15 +208,18 @@ package jsonrpc
 //@   ensures one-callback: calls(wf) == 1 [C09]
 
 //@ func rpcError$1
+//@   safety
 //@   requires w != nil
 //@   at call (*encoding/json.Encoder).Encode: assert error-object-shape: resp.Jsonrpc == "2.0" && resp.ID == req.ID && resp.Error != nil && resp.Error.Code == code && resp.Result == nil && resp.Error.Data == nil && len(resp.Error.Meta) == 0 [C09,C13]
 //@   ensures one-value: calls(Encode) == 1 [C09]
 
 //@ func (*handler).handle$1
+//@   safety
 //@   requires w != nil
 //@   ensures one-value: calls(Encode) == 1 [C09]
 
 //@ func withLazyWriter
+//@   safety
 //@   modifies nothing
 //@   requires cb != nil
 //@   ensures one-callback: calls(cb) == 1 [C09,C14]
@@ -197,6 +251,7 @@ package jsonrpc
 //@   nopanic [C10]
 
 //@ func processFuncOut
+//@   safety
 //@   modifies nothing
 //@   may_panic
 //@   ensures count: result2 == NumOut(funcType) && result2 <= 2 [C01,C12,C11]
@@ -205,6 +260,7 @@ package jsonrpc
 //@   ensures two: result2 == 2 ==> result0 == 0 && result1 == 1 && OutT(funcType, 1) == errorType [C01,C11]
 
 //@ func (*handler).register
+//@   safety
 //@   may_panic
 //@   requires s.methods != nil && s.methodNameFormatter != nil
 //@   modifies handler.methods
@@ -227,6 +283,7 @@ package jsonrpc
 //@   at mapset Config.aliasedHandlerMethods: assert alias-maps-to-original: $key == alias && $val == original [C12,C16]
 
 //@ func NewMethodNameFormatter$1
+//@   safety
 //@   modifies nothing
 //@   nopanic [C12]
 //@   ensures with-namespace: includeNamespace ==> result == strcat(strcat(namespace, "."), ite(nameCase == 1 && len(method) > 0, strcat(lowerOf(substr(method, 0, 1)), substr(method, 1, len(method))), method)) [C12]
@@ -245,6 +302,7 @@ package jsonrpc
 //@   at store rpcFunc.name: assert name-is-tag-or-formatted: $val == ite(tagOK, tagName, fmtRes) [C12]
 
 //@ func doCall
+//@   safety
 //@   modifies nothing
 //@   nopanic [C13]
 //@   ensures result-shape: result1 == nil ==> len(result0) == NumOut(rtypeOf(f)) && (forall i :: 0 <= i && i < len(result0) ==> rtypeOf(result0[i]) == OutT(rtypeOf(f), i)) [C13,C10,C01]
@@ -254,7 +312,8 @@ package jsonrpc
 //@   at call xerrors.Errorf: assert error-mentions-method-and-raw-payload: unbox($1[0], #string) == methodName && $1[1] == i && i != nil [C13]
 
 //@ func (*backoff).next
+//@   safety
 //@   modifies nothing
-//@   requires 0 <= b.minDelay && b.minDelay <= b.maxDelay
+//@   requires sane-config: 0 <= b.minDelay && b.minDelay <= b.maxDelay [C05]
 //@   ensures in-range: attempt >= 0 ==> b.minDelay <= result && result <= b.maxDelay [C05]
 //@   ensures neg: attempt < 0 ==> result == b.minDelay [C05]
